@@ -75,6 +75,8 @@ class Dir:
                     res.add(self.place_dir(pl, depth + 1))
                 elif rv == 'ref':
                     res.add(self.place_dir(rr['p'], depth + 1))
+                elif rv == 'agg' and str(rr.get('adt') or '').startswith('std::ops::Range'):
+                    raise Unknown('other field: a counted range')
                 elif rv == 'agg':
                     # a closure / tuple / struct built here: not a sequence (e.g. Vec::new() is a call); an aggregate holding one sequence
                     seqs = []
@@ -147,7 +149,14 @@ class Dir:
                 elif tail in ('last', 'last_mut', 'pop', 'pop_back', 'first', 'first_mut', 'pop_front') and t['args'] and (best is None or best[0] < 2):
                     if best is None:
                         best = (1, len(self.dom.get(bi, ())), bi)
-        return best[2] if best else None
+        if best:
+            return best[2]
+        loop_blocks = {b for b in f.normal_blocks() if b in f.reachable_blocks(block) and block in f.reachable_blocks(b)}
+        for bi, t in f.calls():
+            n = strip_generics(callee_name(t) or '')
+            if bi in loop_blocks and n.rsplit('::', 1)[-1] in ('index', 'len') and t['args']:
+                return bi
+        return None
 
     def loop_dir(self, block, depth=0):
         """direction of the loop that governs `block`: the innermost Iterator::next call that dominates it and is reached again from it"""
@@ -165,6 +174,16 @@ class Dir:
                 if tail in ('last', 'last_mut', 'pop', 'pop_back', 'first', 'first_mut', 'pop_front') and t['args'] and bi in self.dom.get(block, ()) and bi in f.reachable_blocks(block):
                     d = self.place_dir(op_place(t['args'][0]), depth + 1)
                     return -d if tail in ('last', 'last_mut', 'pop', 'pop_back') else d
+            # `while pos < seq.len() { .. seq[pos] ..; pos += k }`: an ascending index walk over a local sequence
+            loop_blocks = {b for b in f.normal_blocks() if b in f.reachable_blocks(block) and block in f.reachable_blocks(b)}
+            descending = any(s_.get('r', {}).get('rv') == 'bin' and s_['r']['op'].startswith('Sub') for b in loop_blocks for s_ in f.blocks[b]['s'])
+            for bi, t in f.calls():
+                n = strip_generics(callee_name(t) or '')
+                if bi in loop_blocks and n.rsplit('::', 1)[-1] in ('index', 'len', 'get') and t['args'] and not descending:
+                    try:
+                        return self.place_dir(op_place(t['args'][0]), depth + 1)
+                    except Unknown:
+                        continue
             raise Unknown('no driving loop found for block %d' % block)
         _, bi, t, tail = max(cands)
         d = self.place_dir(op_place(t['args'][0]), depth + 1)
@@ -204,7 +223,9 @@ def emission_directions(w, f, root_field='locals', emitters=()):
             return False
         item = any(from_item(op_place(a)) for a in t['args'][1:])
         if not item:
-            continue
+            # the loop emits something decided from its items (a count of a run, a constant chosen per item): still a walk over the sequence -
+            # judged if the sequence comes from the root field, skipped if it is a counted range or another table
+            pass
         try:
             out.append((bi, d.loop_dir(bi), ''))
         except Unknown as e:
